@@ -132,7 +132,7 @@ Qed.
 
 Lemma cfg_eqb_refl : forall c, wf_cfg c -> cfg_eqb c c = true.
 Proof.
-  intros c W. unfold cfg_eqb. rewrite Nat.eqb_refl, (sub_cfg_refl _ W). reflexivity.
+  intros c W. unfold cfg_eqb. rewrite !Nat.eqb_refl, (sub_cfg_refl _ W). reflexivity.
 Qed.
 
 (** ------------------------------------------------------------------ from_config *)
@@ -502,7 +502,7 @@ Proof.
   inversion S; subst. clear S. rewrite gc_clients.
   assert (Hheld : is_held srv = true) by (unfold is_held; rewrite Hh; reflexivity).
   assert (G : cl_lookup c (clients w1) = Some x /\ In srv (servers w1)).
-  { destruct o as [fo|c0 d u|c0|c0|c0]; cbn [step0 actor] in *.
+  { destruct o as [fo|c0 d u|c0|c0|c0|c0 ms|k|k]; cbn [step0 actor] in *.
     - destruct (reload hashf (st w) fo (next_pool w)) as [[[s' r] n'] new]. inversion S0; subst. cbn. auto.
     - assert (c <> c0) by congruence.
       destruct (cl_lookup c0 (clients w)); [inversion S0; subst; auto|].
@@ -513,6 +513,7 @@ Proof.
     - assert (c <> c0) by congruence.
       destruct (cl_lookup c0 (clients w)) as [y|]; [|inversion S0; subst; auto].
       destruct (cheld y); [inversion S0; subst; auto|].
+      destruct (existsb (key_eqb (cdb y, cuser y)) (paused w)); [inversion S0; subst; auto|].
       destruct (plookup (cdb y, cuser y) (pools (st w))) as [[h p]|].
       + destruct (take_idle p c0 (servers w)) as [[s l']|] eqn:T; inversion S0; subst; cbn [clients servers with_clients];
           rewrite cl_lookup_set_other by assumption; split; auto.
@@ -526,7 +527,15 @@ Proof.
     - assert (c <> c0) by congruence.
       destruct (cl_lookup c0 (clients w)) as [y|]; inversion S0; subst; auto. cbn [clients servers with_clients].
       rewrite cl_lookup_remove_other by assumption. split; auto.
-      apply release_keeps_other; auto. unfold held_by. rewrite Hh. apply Nat.eqb_neq. assumption. }
+      apply release_keeps_other; auto. unfold held_by. rewrite Hh. apply Nat.eqb_neq. assumption.
+    - assert (c <> c0) by congruence.
+      destruct (cl_lookup c0 (clients w)) as [y|]; [|inversion S0; subst; auto].
+      destruct (cheld y); [|inversion S0; subst; auto].
+      destruct (negb (ctmo y =? 0) && (ctmo y <=? ms)); inversion S0; subst; auto.
+      cbn [clients servers with_clients]. rewrite cl_lookup_set_other by assumption. split; auto.
+      apply release_keeps_other; auto. unfold held_by. rewrite Hh. apply Nat.eqb_neq. assumption.
+    - destruct (has_pool (st w) k); inversion S0; subst; auto.
+    - destruct (has_pool (st w) k); inversion S0; subst; auto. }
   destruct G as [G1 G2]. split; auto. apply gc_keeps_held; assumption.
 Qed.
 
@@ -546,7 +555,7 @@ Qed.
 Lemma inflight_end : forall w c x s srv,
   cl_lookup c (clients w) = Some x -> cheld x = Some s -> In srv (servers w) -> sholder srv = Some c ->
   exists w', step hashf w (OEnd c) = (w', ObEnded) /\
-             cl_lookup c (clients w') = Some {| cdb := cdb x; cuser := cuser x; cclone := cclone x; cheld := None |} /\
+             cl_lookup c (clients w') = Some {| cdb := cdb x; cuser := cuser x; cclone := cclone x; cheld := None; ctmo := ctmo x |} /\
              (spool srv = cclone x -> In {| sid := sid srv; spool := spool srv; sholder := None |} (servers w')).
 Proof.
   intros w c x s srv L Hh Hin Hs. unfold step. cbn [step0]. rewrite L, Hh. eexists. split; [reflexivity|].
@@ -564,17 +573,21 @@ Lemma client_step_store : forall w o w' ob, step hashf w o = (w', ob) -> actor o
 Proof.
   intros w o w' ob S A. unfold step in S. destruct (step0 hashf w o) as [w1 ob1] eqn:S0. inversion S; subst. clear S.
   rewrite gc_st, gc_objs. change (next_pool (gc w1)) with (next_pool w1).
-  destruct o as [fo|c0 d u|c0|c0|c0]; cbn [step0 actor] in *; try congruence.
+  destruct o as [fo|c0 d u|c0|c0|c0|c0 ms|k|k]; cbn [step0 actor] in *; try congruence.
   - destruct (cl_lookup c0 (clients w)); [inversion S0; subst; auto|].
     destruct (plookup (d, u) (pools (st w))) as [[h p]|]; [|inversion S0; subst; auto].
     destruct (existsb (Nat.eqb p) (validated w)); inversion S0; subst; auto.
   - destruct (cl_lookup c0 (clients w)) as [y|]; [|inversion S0; subst; auto].
     destruct (cheld y); [inversion S0; subst; auto|].
+    destruct (existsb (key_eqb (cdb y, cuser y)) (paused w)); [inversion S0; subst; auto|].
     destruct (plookup (cdb y, cuser y) (pools (st w))) as [[h p]|]; [|inversion S0; subst; auto].
     destruct (take_idle p c0 (servers w)) as [[s l']|]; inversion S0; subst; auto.
   - destruct (cl_lookup c0 (clients w)) as [y|]; [|inversion S0; subst; auto].
     destruct (cheld y); inversion S0; subst; auto.
   - destruct (cl_lookup c0 (clients w)) as [y|]; inversion S0; subst; auto.
+  - destruct (cl_lookup c0 (clients w)) as [y|]; [|inversion S0; subst; auto].
+    destruct (cheld y); [|inversion S0; subst; auto].
+    destruct (negb (ctmo y =? 0) && (ctmo y <=? ms)); inversion S0; subst; auto.
 Qed.
 
 Lemma client_run_store : forall l w w' obs, run hashf w l = (w', obs) -> Forall (fun o => actor o <> None) l ->
@@ -590,15 +603,16 @@ Qed.
 (** What OBegin does, as a function of POOLS at that moment. *)
 Lemma begin_resolves : forall w c x,
   cl_lookup c (clients w) = Some x -> cheld x = None ->
+  existsb (key_eqb (cdb x, cuser x)) (paused w) = false ->
   match begin_txn (st w) (cdb x) (cuser x) with
   | Some p => exists w' s f, step hashf w (OBegin c) = (w', ObBegun p s f) /\
-                cl_lookup c (clients w') = Some {| cdb := cdb x; cuser := cuser x; cclone := p; cheld := Some s |} /\
+                cl_lookup c (clients w') = Some {| cdb := cdb x; cuser := cuser x; cclone := p; cheld := Some s; ctmo := cidle (config (st w)) |} /\
                 In {| sid := s; spool := p; sholder := Some c |} (servers w')
   | None => exists w', step hashf w (OBegin c) = (w', ObNoPool) /\ cl_lookup c (clients w') = None /\
                 st w' = st w /\ (forall y, In y (servers w') -> In y (servers w))
   end.
 Proof.
-  intros w c x L Hh. unfold begin_txn, step. cbn [step0]. rewrite L, Hh.
+  intros w c x L Hh Np. unfold begin_txn, step. cbn [step0]. rewrite L, Hh, Np.
   destruct (plookup (cdb x, cuser x) (pools (st w))) as [[h p]|].
   - destruct (take_idle p c (servers w)) as [[s l']|] eqn:T.
     + eexists _, s, false. split; [reflexivity|]. rewrite gc_clients. cbn [clients]. rewrite cl_lookup_set_same. split; auto.
@@ -657,7 +671,7 @@ Lemma winv_step : forall w o w' ob, winv w -> step hashf w o = (w', ob) -> winv 
 Proof.
   intros w o w' ob [SO [[OK1 OK2] CO]] S. unfold step in S. destruct (step0 hashf w o) as [w1 ob1] eqn:S0.
   inversion S; subst. clear S. unfold winv. rewrite gc_st, gc_objs, gc_clients. change (next_pool (gc w1)) with (next_pool w1).
-  destruct o as [fo|c0 d u|c0|c0|c0]; cbn [step0] in S0.
+  destruct o as [fo|c0 d u|c0|c0|c0|c0 ms|k|k]; cbn [step0] in S0.
   - destruct (reload hashf (st w) fo (next_pool w)) as [[[s' r] n'] new] eqn:R. inversion S0; subst. cbn.
     destruct (reload_fresh _ _ _ _ _ _ _ R) as [F1 [F2 [F3 F4]]]. repeat split.
     + intros k h pid L. destruct (F4 _ _ _ L) as [X|[pd [X Y]]].
@@ -670,20 +684,21 @@ Proof.
     + intros c x L. destruct (CO _ _ L) as [pd A]. exists pd. apply in_or_app. auto.
   - destruct (cl_lookup c0 (clients w)) eqn:L0; [inversion S0; subst; repeat split; auto|].
     destruct (plookup (d, u) (pools (st w))) as [[h p]|] eqn:Lp; [|inversion S0; subst; repeat split; auto].
-    assert (G : clients_ok (objs w) (cl_set c0 {| cdb := d; cuser := u; cclone := p; cheld := None |} (clients w))).
+    assert (G : clients_ok (objs w) (cl_set c0 {| cdb := d; cuser := u; cclone := p; cheld := None; ctmo := 0 |} (clients w))).
     { intros c x L. destruct (Nat.eq_dec c c0) as [->|Hne].
       - rewrite cl_lookup_set_same in L. inversion L; subst. cbn. destruct (SO _ _ _ Lp) as [pd [A _]]. eauto.
       - rewrite cl_lookup_set_other in L by assumption. eauto. }
     destruct (existsb (Nat.eqb p) (validated w)); inversion S0; subst; cbn; repeat split; auto.
   - destruct (cl_lookup c0 (clients w)) as [y|] eqn:L0; [|inversion S0; subst; repeat split; auto].
     destruct (cheld y); [inversion S0; subst; repeat split; auto|].
+    destruct (existsb (key_eqb (cdb y, cuser y)) (paused w)); [inversion S0; subst; repeat split; auto|].
     destruct (plookup (cdb y, cuser y) (pools (st w))) as [[h p]|] eqn:Lp.
-    + assert (G : clients_ok (objs w) (cl_set c0 {| cdb := cdb y; cuser := cuser y; cclone := p; cheld := None |} (clients w)) ->
-                  forall s, clients_ok (objs w) (cl_set c0 {| cdb := cdb y; cuser := cuser y; cclone := p; cheld := Some s |} (clients w))).
+    + assert (G : clients_ok (objs w) (cl_set c0 {| cdb := cdb y; cuser := cuser y; cclone := p; cheld := None; ctmo := 0 |} (clients w)) ->
+                  forall s, clients_ok (objs w) (cl_set c0 {| cdb := cdb y; cuser := cuser y; cclone := p; cheld := Some s; ctmo := cidle (config (st w)) |} (clients w))).
       { intros G s c x L. destruct (Nat.eq_dec c c0) as [->|Hne].
         - rewrite cl_lookup_set_same in L. inversion L; subst. cbn. destruct (SO _ _ _ Lp) as [pd [A _]]. eauto.
         - rewrite cl_lookup_set_other in L by assumption. eauto. }
-      assert (G0 : clients_ok (objs w) (cl_set c0 {| cdb := cdb y; cuser := cuser y; cclone := p; cheld := None |} (clients w))).
+      assert (G0 : clients_ok (objs w) (cl_set c0 {| cdb := cdb y; cuser := cuser y; cclone := p; cheld := None; ctmo := 0 |} (clients w))).
       { intros c x L. destruct (Nat.eq_dec c c0) as [->|Hne].
         - rewrite cl_lookup_set_same in L. inversion L; subst. cbn. destruct (SO _ _ _ Lp) as [pd [A _]]. eauto.
         - rewrite cl_lookup_set_other in L by assumption. eauto. }
@@ -700,6 +715,14 @@ Proof.
     intros c x L. destruct (Nat.eq_dec c c0) as [->|Hne].
     + rewrite cl_lookup_remove_same in L. discriminate.
     + rewrite cl_lookup_remove_other in L by assumption. eauto.
+  - destruct (cl_lookup c0 (clients w)) as [y|] eqn:L0; [|inversion S0; subst; repeat split; auto].
+    destruct (cheld y); [|inversion S0; subst; repeat split; auto].
+    destruct (negb (ctmo y =? 0) && (ctmo y <=? ms)); inversion S0; subst; repeat split; auto. cbn.
+    intros c x L. destruct (Nat.eq_dec c c0) as [->|Hne].
+    + rewrite cl_lookup_set_same in L. inversion L; subst. cbn. apply (CO _ _ L0).
+    + rewrite cl_lookup_set_other in L by assumption. eauto.
+  - destruct (has_pool (st w) k); inversion S0; subst; repeat split; auto.
+  - destruct (has_pool (st w) k); inversion S0; subst; repeat split; auto.
 Qed.
 
 Lemma winv_empty : winv empty_world.
@@ -735,7 +758,10 @@ Proof.
   intros w c x w' p s f [SO [[OK1 OK2] CO]] L S.
   assert (Hh : cheld x = None).
   { unfold step in S. cbn [step0] in S. rewrite L in S. destruct (cheld x); [inversion S|reflexivity]. }
-  pose proof (begin_resolves w c x L Hh) as B. unfold begin_txn in B.
+  assert (Np : existsb (key_eqb (cdb x, cuser x)) (paused w) = false).
+  { unfold step in S. cbn [step0] in S. rewrite L, Hh in S.
+    destruct (existsb (key_eqb (cdb x, cuser x)) (paused w)); [inversion S|reflexivity]. }
+  pose proof (begin_resolves w c x L Hh Np) as B. unfold begin_txn in B.
   destruct (plookup (cdb x, cuser x) (pools (st w))) as [[h p0]|] eqn:Lp.
   - destruct B as [w2 [s2 [f2 [B1 [B2 B3]]]]]. rewrite S in B1. inversion B1; subst.
     destruct (SO _ _ _ Lp) as [pd [A _]]. split; [eauto|]. split; auto.
@@ -754,7 +780,8 @@ Proof.
   intros w o w' ob I A W K S. destruct (actor o) eqn:Ac.
   - assert (actor o <> None) by congruence. destruct (client_step_store _ _ _ _ S H) as [E1 [E2 _]].
     unfold agree. rewrite E1, E2. exact A.
-  - destruct o as [fo| | | |]; cbn in Ac; try discriminate.
+  - destruct o as [fo| | | | | |k|k]; cbn in Ac; try discriminate.
+    2,3: (unfold step in S; cbn [step0] in S; destruct (has_pool (st w) k); inversion S; subst; exact A).
     unfold step in S. cbn [step0] in S.
     destruct (reload hashf (st w) fo (next_pool w)) as [[[s' r] n'] new] eqn:R. inversion S; subst. clear S.
     unfold agree. rewrite gc_st, gc_objs. cbn [st objs].
@@ -788,7 +815,7 @@ Proof. intros d u. cbn. reflexivity. Qed.
 (** ------------------------------------------------------------------ world-level forms *)
 
 Lemma world_eta : forall w, {| st := st w; objs := objs w; next_pool := next_pool w; clients := clients w;
-                               servers := servers w; next_srv := next_srv w; validated := validated w |} = w.
+                               servers := servers w; next_srv := next_srv w; validated := validated w; paused := paused w |} = w.
 Proof. destruct w; reflexivity. Qed.
 
 Lemma invalid_noop_world : forall w fo, settled w -> invalid fo -> step hashf w (OReload fo) = (w, ObReload RErr).
@@ -822,9 +849,75 @@ Proof.
   intros x Hin Hp. eapply gc_keeps_store_pool with (k := (d, u)) (h := hashf pd); [exact Hin|]. cbn [st]. rewrite Hp. exact K.
 Qed.
 
+(** only registered pools are paused: PAUSE needs the pool, a reload that removes a pool resumes it *)
+Definition pinv (w : world) : Prop := forall k, In k (paused w) -> has_pool (st w) k = true.
+
+Lemma reload_keeps_pools : forall s fo n s' r n' new, reload hashf s fo n = (s', r, n', new) -> r <> ROk true -> pools s' = pools s.
+Proof.
+  intros s fo n s' r n' new R NR. destruct fo as [| |wy|c bo]; cbn [reload] in R; try (inversion R; subst; reflexivity).
+  destruct (cfg_eqb (config s) c); [inversion R; subst; reflexivity|].
+  destruct (a_st (from_config hashf (pools s) c bo n)); inversion R; subst; auto. congruence.
+Qed.
+
+Lemma pinv_step : forall w o w' ob, pinv w -> step hashf w o = (w', ob) -> pinv w'.
+Proof.
+  intros w o w' ob P S. destruct (actor o) eqn:Ac.
+  - assert (Hc : actor o <> None) by congruence. destruct (client_step_store _ _ _ _ S Hc) as [E _].
+    assert (Ep : paused w' = paused w).
+    { unfold step in S. destruct (step0 hashf w o) as [w1 ob1] eqn:S0. inversion S; subst. change (paused (gc w1)) with (paused w1).
+      destruct o as [fo|c0 d u|c0|c0|c0|c0 ms|k|k]; cbn [step0 actor] in *; try discriminate.
+      - destruct (cl_lookup c0 (clients w)); [inversion S0; subst; auto|].
+        destruct (plookup (d, u) (pools (st w))) as [[h p]|]; [|inversion S0; subst; auto].
+        destruct (existsb (Nat.eqb p) (validated w)); inversion S0; subst; auto.
+      - destruct (cl_lookup c0 (clients w)) as [y|]; [|inversion S0; subst; auto].
+        destruct (cheld y); [inversion S0; subst; auto|].
+        destruct (existsb (key_eqb (cdb y, cuser y)) (paused w)); [inversion S0; subst; auto|].
+        destruct (plookup (cdb y, cuser y) (pools (st w))) as [[h p]|]; [|inversion S0; subst; auto].
+        destruct (take_idle p c0 (servers w)) as [[s l']|]; inversion S0; subst; auto.
+      - destruct (cl_lookup c0 (clients w)) as [y|]; [|inversion S0; subst; auto].
+        destruct (cheld y); inversion S0; subst; auto.
+      - destruct (cl_lookup c0 (clients w)) as [y|]; inversion S0; subst; auto.
+      - destruct (cl_lookup c0 (clients w)) as [y|]; [|inversion S0; subst; auto].
+        destruct (cheld y); [|inversion S0; subst; auto].
+        destruct (negb (ctmo y =? 0) && (ctmo y <=? ms)); inversion S0; subst; auto. }
+    intros k Hk. rewrite Ep in Hk. unfold has_pool. rewrite E. apply P. assumption.
+  - unfold step in S. destruct (step0 hashf w o) as [w1 ob1] eqn:S0. inversion S; subst. clear S.
+    intros k Hk. change (paused (gc w1)) with (paused w1) in Hk. rewrite gc_st.
+    destruct o as [fo| | | | | |k0|k0]; cbn [step0 actor] in *; try discriminate.
+    + destruct (reload hashf (st w) fo (next_pool w)) as [[[s' r] n'] new] eqn:R. inversion S0; subst. cbn [st paused] in *.
+      destruct r as [|[|]|].
+      * unfold has_pool. rewrite (reload_keeps_pools _ _ _ _ _ _ _ R) by congruence. apply P. assumption.
+      * apply filter_In in Hk. tauto.
+      * unfold has_pool. rewrite (reload_keeps_pools _ _ _ _ _ _ _ R) by congruence. apply P. assumption.
+      * unfold has_pool. rewrite (reload_keeps_pools _ _ _ _ _ _ _ R) by congruence. apply P. assumption.
+    + destruct (has_pool (st w) k0) eqn:H0; inversion S0; subst; cbn [st paused] in *; [|auto].
+      destruct Hk as [<-|Hk]; auto.
+    + destruct (has_pool (st w) k0) eqn:H0; inversion S0; subst; cbn [st paused] in *; [|auto].
+      apply filter_In in Hk. apply P. tauto.
+Qed.
+
+Lemma pinv_run : forall l w w' obs, pinv w -> run hashf w l = (w', obs) -> pinv w'.
+Proof.
+  induction l as [|o t IH]; intros w w' obs I R; cbn in R.
+  - inversion R; subst. assumption.
+  - destruct (step hashf w o) as [w1 ob] eqn:S. destruct (run hashf w1 t) as [w2 obs2] eqn:R2. inversion R; subst.
+    apply (IH w1 w' obs2); [eapply pinv_step; eauto|assumption].
+Qed.
+
+Lemma pinv_empty : pinv empty_world.
+Proof. intros k []. Qed.
+
+Lemma pinv_not_paused : forall w k, pinv w -> has_pool (st w) k = false -> existsb (key_eqb k) (paused w) = false.
+Proof.
+  intros w k P H. destruct (existsb (key_eqb k) (paused w)) eqn:E; auto.
+  apply existsb_exists in E. destruct E as [k' [Hin Hk]]. apply key_eqb_eq in Hk. subst k'.
+  rewrite (P _ Hin) in H. discriminate.
+Qed.
+
 Lemma later_begin : forall w1 ops w2 obs cl x,
   Forall (fun o => actor o <> None) ops -> run hashf w1 ops = (w2, obs) ->
   cl_lookup cl (clients w2) = Some x -> cheld x = None ->
+  existsb (key_eqb (cdb x, cuser x)) (paused w2) = false ->
   match begin_txn (st w1) (cdb x) (cuser x) with
   | Some p => exists w3 s f, step hashf w2 (OBegin cl) = (w3, ObBegun p s f) /\
                 In {| sid := s; spool := p; sholder := Some cl |} (servers w3)
@@ -832,8 +925,8 @@ Lemma later_begin : forall w1 ops w2 obs cl x,
                 st w3 = st w2 /\ (forall y, In y (servers w3) -> In y (servers w2))
   end.
 Proof.
-  intros w1 ops w2 obs cl x F R L Hh. destruct (client_run_store _ _ _ _ R F) as [E _]. rewrite <- E.
-  pose proof (begin_resolves w2 cl x L Hh) as B. destruct (begin_txn (st w2) (cdb x) (cuser x)).
+  intros w1 ops w2 obs cl x F R L Hh Np. destruct (client_run_store _ _ _ _ R F) as [E _]. rewrite <- E.
+  pose proof (begin_resolves w2 cl x L Hh Np) as B. destruct (begin_txn (st w2) (cdb x) (cuser x)).
   - destruct B as [w3 [s [f [B1 [_ B3]]]]]. eauto.
   - exact B.
 Qed.
@@ -869,7 +962,7 @@ Proof.
 Qed.
 
 Lemma removed_pool_error : forall w c bo w1 ops w2 obs cl x,
-  winv w -> wf_cfg c ->
+  winv w -> pinv w -> wf_cfg c ->
   step hashf w (OReload (Valid c bo)) = (w1, ObReload (ROk true)) ->
   Forall (fun o => actor o <> None) ops -> run hashf w1 ops = (w2, obs) ->
   cl_lookup cl (clients w2) = Some x -> cheld x = None ->
@@ -877,12 +970,15 @@ Lemma removed_pool_error : forall w c bo w1 ops w2 obs cl x,
   exists w3, step hashf w2 (OBegin cl) = (w3, ObNoPool) /\ cl_lookup cl (clients w3) = None /\
              st w3 = st w2 /\ (forall y, In y (servers w3) -> In y (servers w2)).
 Proof.
-  intros w c bo w1 ops w2 obs cl x I W S F R L Hh Rm.
+  intros w c bo w1 ops w2 obs cl x I P W S F R L Hh Rm.
   destruct (changed_in_effect _ _ _ _ I W S) as [_ CE]. specialize (CE (cdb x) (cuser x)).
-  pose proof (later_begin _ _ _ _ _ _ F R L Hh) as LB.
-  destruct (clookup (cdb x) (cpools c)) as [[pd us]|].
-  - apply mem_false in Rm. rewrite Rm in CE. rewrite CE in LB. exact LB.
-  - rewrite CE in LB. exact LB.
+  assert (N : begin_txn (st w1) (cdb x) (cuser x) = None).
+  { destruct (clookup (cdb x) (cpools c)) as [[pd us]|]; [apply mem_false in Rm; rewrite Rm in CE|]; exact CE. }
+  assert (Np : existsb (key_eqb (cdb x, cuser x)) (paused w2) = false).
+  { apply pinv_not_paused; [eapply pinv_run; [eapply pinv_step; eauto|eauto]|].
+    destruct (client_run_store _ _ _ _ R F) as [E _]. unfold has_pool. rewrite E. unfold begin_txn in N.
+    destruct (plookup (cdb x, cuser x) (pools (st w1))) as [[h p]|]; [discriminate|reflexivity]. }
+  pose proof (later_begin _ _ _ _ _ _ F R L Hh Np) as LB. rewrite N in LB. exact LB.
 Qed.
 
 Lemma changed_in_effect_txn : forall w c bo w1 ops w2 obs cl x pd us,
@@ -890,26 +986,96 @@ Lemma changed_in_effect_txn : forall w c bo w1 ops w2 obs cl x pd us,
   step hashf w (OReload (Valid c bo)) = (w1, ObReload (ROk true)) ->
   Forall (fun o => actor o <> None) ops -> run hashf w1 ops = (w2, obs) ->
   cl_lookup cl (clients w2) = Some x -> cheld x = None ->
+  existsb (key_eqb (cdb x, cuser x)) (paused w2) = false ->
   clookup (cdb x) (cpools c) = Some (pd, us) -> In (cuser x) us ->
   exists w3 p s f pd', step hashf w2 (OBegin cl) = (w3, ObBegun p s f) /\
     In {| sid := s; spool := p; sholder := Some cl |} (servers w3) /\
     In (p, ((cdb x, cuser x), pd')) (objs w2) /\ hashf pd' = hashf pd /\
     (no_reuse (pools (st w)) (cdb x, cuser x) pd -> next_pool w <= p /\ pd' = pd).
 Proof.
-  intros w c bo w1 ops w2 obs cl x pd us I W S F R L Hh Lc Hu.
+  intros w c bo w1 ops w2 obs cl x pd us I W S F R L Hh Np Lc Hu.
   destruct (changed_in_effect _ _ _ _ I W S) as [_ CE]. specialize (CE (cdb x) (cuser x)).
-  pose proof (later_begin _ _ _ _ _ _ F R L Hh) as LB. rewrite Lc in CE. apply mem_In in Hu. rewrite Hu in CE.
+  pose proof (later_begin _ _ _ _ _ _ F R L Hh Np) as LB. rewrite Lc in CE. apply mem_In in Hu. rewrite Hu in CE.
   destruct CE as [p [pd' [A [B [C D]]]]]. rewrite A in LB. destruct LB as [w3 [s [f [X Y]]]].
   destruct (client_run_store _ _ _ _ R F) as [_ [Eo _]].
   exists w3, p, s, f, pd'. rewrite Eo. auto.
+Qed.
+
+(** ------------------------------------------------------------------ settings a transaction started with *)
+
+(** Whether an open transaction times out after [ms] of silence is decided by the value its client read when the
+    server was checked out ([ctmo]) — not by CONFIG at the time of the silence. *)
+Lemma idle_outcome : forall w c x s ms,
+  cl_lookup c (clients w) = Some x -> cheld x = Some s ->
+  snd (step hashf w (OIdle c ms)) = if negb (ctmo x =? 0) && (ctmo x <=? ms) then ObTimedOut else ObIdled.
+Proof.
+  intros w c x s ms L Hh. unfold step. cbn [step0]. rewrite L, Hh.
+  destruct (negb (ctmo x =? 0) && (ctmo x <=? ms)); reflexivity.
+Qed.
+
+(** ... hence no reload (and nothing else that is not the client's own step) changes it. *)
+Lemma inflight_timeout_fixed : forall l w w' obs c x s srv ms,
+  run hashf w l = (w', obs) -> Forall (fun o => actor o <> Some c) l ->
+  cl_lookup c (clients w) = Some x -> cheld x = Some s -> In srv (servers w) -> sholder srv = Some c ->
+  snd (step hashf w' (OIdle c ms)) = snd (step hashf w (OIdle c ms)).
+Proof.
+  intros l w w' obs c x s srv ms R F L Hh Hin Hs.
+  destruct (inflight_run _ _ _ _ _ _ _ R F L Hin Hs) as [L' _].
+  rewrite (idle_outcome w' c x s ms L' Hh), (idle_outcome w c x s ms L Hh). reflexivity.
+Qed.
+
+(** a silence shorter than the timeout the transaction started with, or any silence when it started with none,
+    leaves the client and its server as they are *)
+Lemma idle_within_is_noop : forall w c x s ms, settled w ->
+  cl_lookup c (clients w) = Some x -> cheld x = Some s -> (ctmo x = 0 \/ ms < ctmo x) ->
+  step hashf w (OIdle c ms) = (w, ObIdled).
+Proof.
+  intros w c x s ms Hs L Hh H. unfold step. cbn [step0]. rewrite L, Hh.
+  assert (E : negb (ctmo x =? 0) && (ctmo x <=? ms) = false).
+  { destruct H as [H|H]; [rewrite H; reflexivity|]. apply andb_false_iff. right. apply Nat.leb_gt. assumption. }
+  rewrite E. rewrite Hs. reflexivity.
+Qed.
+
+(** new transactions read the value of the configuration in force when they start *)
+Lemma begin_reads_timeout : forall w c x w' p s f,
+  cl_lookup c (clients w) = Some x -> step hashf w (OBegin c) = (w', ObBegun p s f) ->
+  exists y, cl_lookup c (clients w') = Some y /\ ctmo y = cidle (config (st w)) /\ cheld y = Some s.
+Proof.
+  intros w c x w' p s f L S. unfold step in S. cbn [step0] in S. rewrite L in S.
+  destruct (cheld x); [inversion S|].
+  destruct (existsb (key_eqb (cdb x, cuser x)) (paused w)); [inversion S|].
+  destruct (plookup (cdb x, cuser x) (pools (st w))) as [[h p0]|]; [|inversion S].
+  destruct (take_idle p0 c (servers w)) as [[s0 l']|]; inversion S; subst; rewrite gc_clients; cbn [clients];
+    rewrite cl_lookup_set_same; eexists; split; try reflexivity; auto.
+Qed.
+
+(** ------------------------------------------------------------------ removal does not look at the pause flag *)
+
+(** what a reload step reads and writes of the world: the store and the id supply — not the pause flags *)
+Lemma reload_step_store : forall w fo w' ob, step hashf w (OReload fo) = (w', ob) ->
+  exists s' r n' new, reload hashf (st w) fo (next_pool w) = (s', r, n', new) /\ st w' = s' /\ ob = ObReload r /\ next_pool w' = n'.
+Proof.
+  intros w fo w' ob S. unfold step in S. cbn [step0] in S.
+  destruct (reload hashf (st w) fo (next_pool w)) as [[[s' r] n'] new]. inversion S; subst. exists s', r, n', new. auto.
+Qed.
+
+(** after a reload that answered Ok(true) no unregistered pool is paused: the pools it removed were resumed,
+    whatever their flag was (no hypothesis on [paused w]) *)
+Lemma removed_are_resumed : forall w fo w1, step hashf w (OReload fo) = (w1, ObReload (ROk true)) ->
+  forall k, has_pool (st w1) k = false -> ~ In k (paused w1).
+Proof.
+  intros w fo w1 S k H Hin. unfold step in S. cbn [step0] in S.
+  destruct (reload hashf (st w) fo (next_pool w)) as [[[s' r] n'] new]. inversion S; subst.
+  change (paused (gc ?x)) with (paused x) in Hin. rewrite gc_st in H. cbn [st paused] in *.
+  apply filter_In in Hin. destruct Hin as [_ Hin]. congruence.
 Qed.
 
 End WithHash.
 
 (** ------------------------------------------------------------------ witnesses (hash = identity) *)
 
-Definition f12_old : cfg := {| cgen := 1; cpools := [(0, (10, [0]))] |}.
-Definition f12_new : cfg := {| cgen := 1; cpools := [(0, (11, [0]))] |}.
+Definition f12_old : cfg := {| cgen := 1; cidle := 0; cpools := [(0, (10, [0]))] |}.
+Definition f12_new : cfg := {| cgen := 1; cidle := 0; cpools := [(0, (11, [0]))] |}.
 (** start with f12_old; a client of (0,0) connects; the file becomes f12_new while the build of pool (0,0)
     fails; the same file is reloaded once more, now with every build succeeding; the client begins. *)
 Definition f12_ops : list op :=
@@ -952,6 +1118,9 @@ Proof. intros hashf l w obs. apply run_settled. exact settled_empty. Qed.
 
 Lemma winv_every_run : forall hashf ops w obs, run hashf empty_world ops = (w, obs) -> winv hashf w.
 Proof. intros hashf ops w obs R. eapply winv_run; eauto. apply winv_empty. Qed.
+
+Lemma pinv_every_run : forall hashf ops w obs, run hashf empty_world ops = (w, obs) -> pinv w.
+Proof. intros hashf ops w obs R. eapply pinv_run; eauto. apply pinv_empty. Qed.
 
 Lemma config_pools_agree : forall hashf ops w obs,
   Forall op_wf ops -> existsb op_known_panic ops = false ->
